@@ -9,7 +9,7 @@ TYPES = ["Option", "Some", "None", "Result", "Ok", "Err", "Iterator", "IntoItera
 MODS = ["core", "std", "alloc", "mem", "option", "result", "iter", "fmt", "convert", "marker", "ops", "slice", "array", "str", "clone", "cmp"]
 MACROS = ["panic", "unreachable", "matches", "assert", "assert_eq", "assert_ne", "debug_assert", "debug_assert_eq", "write", "writeln",
           "format_args", "format", "vec", "todo", "unimplemented", "concat", "stringify", "line", "column", "file", "cfg", "env",
-          "include_str", "compile_error", "print", "println", "eprintln", "dbg", "try_", "r#try"]
+          "include_str", "print", "println", "eprintln", "dbg", "try_", "r#try"]
 FNS = ["transmute", "drop", "from", "into", "try_from", "from_str", "next", "next_back", "iter", "copied", "map", "find", "contains",
        "unwrap_unchecked", "assume_init", "write", "len", "size_hint", "nth", "fold", "default", "clone", "identity", "zip", "enumerate"]
 
@@ -27,6 +27,7 @@ def ctx_mods():
 
 
 def ctx_macros():
+    # (compile_error! itself is not shadowed: the hostile macros expand to it)
     out = []
     for m in MACROS:
         if m in ("try_",):
